@@ -67,6 +67,12 @@ def c20_runs(tier, scale):
     return [("c20", [25 * scale, 4], None), ("c20", [15 * scale, 4], None)]
 
 
+def c16_runs(tier, scale):
+    if tier == "thorough":
+        return [("c16", [150 * scale], None) for i in range(16)]
+    return [("c16", [25 * scale], None), ("c16", [15 * scale], None)]
+
+
 def c05_runs(tier, scale):
     th = 1 if tier == "thorough" else 0
     runs = [("c05", [lim, th], None) for lim in ([4096, 65536, 1 << 20] if tier == "quick" else [4096, 16384, 65536, 1 << 20, 16 << 20])]
@@ -78,7 +84,7 @@ def c05_runs(tier, scale):
 
 
 # request verbs whose response lines are compared verbatim (everything else: ok-lines verbatim, any err = err)
-EXACT_VERBS = {"crc32", "capread", "sohdr", "sinkwriteall", "rabin", "crc64", "once", "rditems", "rdfile", "wrcheck"}
+EXACT_VERBS = {"sser", "crc32", "capread", "sohdr", "sinkwriteall", "rabin", "crc64", "once", "rditems", "rdfile", "wrcheck"}
 
 
 def c13_runs(tier, scale):
@@ -319,6 +325,29 @@ PROPS = {
                 "outcomes must be among the model's outcomes over all hash orders; oracle: same result for every ordering and run, success iff the set is closed and duplicate-free, values "
                 "written with the schemas of one ordering read back with those of another",
         "trusted_base": TEXT_TB + ["the hash order of the pending inputs is an explicit argument of the model; the HashMap's iteration order is assumed to be SOME fixed order of the keys that removals do not disturb"],
+        "assumptions": [],
+    },
+    "C16": {
+        "lean_modules": ["AvroProofs.C16"],
+        "theorems": ["Avro.C16.count_eq_length", "Avro.C16.direct_layout", "Avro.C16.buffered_layout"],
+        "partial": [
+            {"theorem": "Avro.C16.count_eq_length / direct_layout / buffered_layout",
+             "excluded_by": "the model (serS) covers scalars, char/str, bytes, options, unit, unit structs, unit variants, newtype structs, sequences, tuples, tuple structs, "
+                            "string-keyed maps and structs (any field order, skipped fields from defaults) over schemas whose only unions are Option-shaped; UnionSerializer (enums with "
+                            "data, bare unions), u64/i128/u128 and flattened structs are outside it and are covered by the oracle only. Proved: returned count = bytes emitted; an array / "
+                            "map is a legal block sequence carrying exactly the items' encodings in order for EVERY target block size. NOT proved: that the bytes are a specification-"
+                            "conforming datum of the corresponding value, that the schema-aware deserializer inverts the serializer, and equality with the generic route - decided by the "
+                            "exact rows and the oracle (read_deser, generic decode + validate, to_value/resolve, from_value)"},
+        ],
+        "harness": c16_runs,
+        "projection": "okerr",
+        "nontrivial": lambda l: True,
+        "rule": "corpus of Rust types with derived Serialize/Deserialize (and derived or hand-written schemas): all scalar widths, char, String, bytes, Option of scalars / vectors / structs, "
+                "Vec of scalars / strings / vectors / structs / enums, HashMap<String, _>, nested structs, unit-only enum, newtype / tuple / unit structs, tuples, skipped + defaulted fields, "
+                "an enum with newtype / struct / tuple / unit variants (oracle only), a hand-written Serialize using serialize_map on a record; every third case with the record's fields "
+                "permuted in the schema (out-of-order fields); x random values from boundary pools x target block sizes {none, 1, 16, 4096}; the serde call sequence of every value is "
+                "recorded by a recording Serializer and replayed on the model",
+        "trusted_base": DATUM_TB + ["serde's derive decides which Serializer methods are called; the harness records them with its own Serializer and the model consumes the recording"],
         "assumptions": [],
     },
     "C05": {
